@@ -162,6 +162,9 @@ def build_hosted(states, slots, grain=8, ngte=512, capacity=None, window_at=0, t
     for t in range(min(ngd, 8)):
         img.field(f"gd[{t}]", gd_sector * S + 4 * t, 4, "<", "table")
     flags = 1 | (4 if zero_flag else 0) | ((0x30000 if embedded_lba else 0x10000) if compressed else 0)
+    # flag bit 1 (a redundant directory is in use) is clear: the rgdOffset field means nothing; it is not zero on the images
+    # with an odd capacity
+    rgd_stale = (gd_sector + 7777) if capacity % 2 else 0
     version = 3 if compressed else 1
     comp = 1 if compressed else 0
     overhead = d0
@@ -170,13 +173,13 @@ def build_hosted(states, slots, grain=8, ngte=512, capacity=None, window_at=0, t
         img.put((gd_sector - 1) * S, _marker(gd_sectors, 2))
         fsec = gd_sector + gd_sectors
         img.put(fsec * S, _marker(1, 3))
-        img.put((fsec + 1) * S, _hosted_header(version, flags, capacity, grain, desc_off, desc_size, ngte, 0, gd_sector,
+        img.put((fsec + 1) * S, _hosted_header(version, flags, capacity, grain, desc_off, desc_size, ngte, rgd_stale, gd_sector,
                                                overhead, comp))
         img.put((fsec + 2) * S, _marker(0, 0))
-        img.put(0, _hosted_header(version, flags, capacity, grain, desc_off, desc_size, ngte, 0, GD_AT_END, overhead, comp))
+        img.put(0, _hosted_header(version, flags, capacity, grain, desc_off, desc_size, ngte, rgd_stale, GD_AT_END, overhead, comp))
         hdr_offs = [0, (fsec + 1) * S]
     else:
-        img.put(0, _hosted_header(version, flags, capacity, grain, desc_off, desc_size, ngte, 0, gd_sector, overhead, comp))
+        img.put(0, _hosted_header(version, flags, capacity, grain, desc_off, desc_size, ngte, rgd_stale, gd_sector, overhead, comp))
         hdr_offs = [0]
     for n, base in enumerate(hdr_offs):
         pre = "header." if n == 0 else "footer."
